@@ -627,12 +627,15 @@ func (tc *typechecker) rebalancedRightSide(node ast.Node) []ast.Expression {
 				return []ast.Expression{v1, v2}
 			}
 		case *ast.Index:
-			v1 := ast.NewIndex(v.Pos(), v.Expr, v.Index)
-			v2 := ast.NewIndex(v.Pos(), v.Expr, v.Index)
 			ti := tc.checkExpr(rhExpr)
-			tc.compilation.typeInfos[v1] = &typeInfo{Type: ti.Type}
-			tc.compilation.typeInfos[v2] = untypedBoolTypeInfo
-			return []ast.Expression{v1, v2}
+			// Only a map index expression has the 'comma ok' form.
+			if mt := tc.compilation.typeInfos[v.Expr]; mt != nil && !mt.Nil() && mt.Type.Kind() == reflect.Map {
+				v1 := ast.NewIndex(v.Pos(), v.Expr, v.Index)
+				v2 := ast.NewIndex(v.Pos(), v.Expr, v.Index)
+				tc.compilation.typeInfos[v1] = &typeInfo{Type: ti.Type}
+				tc.compilation.typeInfos[v2] = untypedBoolTypeInfo
+				return []ast.Expression{v1, v2}
+			}
 		case *ast.UnaryOperator:
 			if v.Op == ast.OperatorReceive {
 				v1 := ast.NewUnaryOperator(v.Pos(), ast.OperatorReceive, v.Expr)
